@@ -15,6 +15,30 @@ def steps_and_tags(results):
     return tags
 
 
+def safe_run_case(ctx, c):
+    """Run one case on the real Executor.  None = not comparable (discarded for size, counted).  The
+    harness itself must never end the check: if driving or observing the implementation raises on a
+    generated program, that program is reported (the implementation did something on it that the
+    harness -- which only uses documented attributes -- could not even observe)."""
+    import traceback
+    try:
+        r = H.run_case(c)
+    except Exception as exc:  # noqa
+        ctx.coverage["harness_exceptions"] = ctx.coverage.get("harness_exceptions", 0) + 1
+        if ctx.coverage["harness_exceptions"] <= 5:
+            d = dict(cap=c["cap"], fuel=c["fuel"], subs=c["subs"], tag=c.get("tag", ""), hostlines=bool(c.get("hostlines")),
+                     hardware=bool(c.get("hardware")), harness_exception=type(exc).__name__ + ": " + str(exc)[:200],
+                     traceback=traceback.format_exc()[-1200:])
+            if "script" in c:
+                d["script"] = c["script"]
+            ctx.violation("running / observing the real Executor on this program raised inside the harness: "
+                          + type(exc).__name__, d, key=None)
+        return None
+    if r is None:
+        ctx.coverage["discarded_array_too_long"] = ctx.coverage.get("discarded_array_too_long", 0) + 1
+    return r
+
+
 def evaluate(ctx, cases, prefix, hardware=False):
     """Run every case on the real Executor, then the model (Exec) and the
     reference semantics (Sem) inside coqc on the same inputs.
@@ -23,9 +47,8 @@ def evaluate(ctx, cases, prefix, hardware=False):
     coq_cases = []
     kept = []
     for c in cases:
-        c["results"] = H.run_case(c)
+        c["results"] = safe_run_case(ctx, c)
         if c["results"] is None:
-            ctx.coverage["discarded_array_too_long"] = ctx.coverage.get("discarded_array_too_long", 0) + 1
             continue
         kept.append(c)
         coq_cases.append(H.cq_case(c, c["results"]))
@@ -59,7 +82,7 @@ def evaluate_quantum(ctx, cases, prefix):
     Returns (mismatch, open_) index lists or None."""
     coq_cases, kept = [], []
     for c in cases:
-        c["results"] = H.run_case(c)
+        c["results"] = safe_run_case(ctx, c)
         if c["results"] is None:
             continue
         kept.append(c)
